@@ -2,6 +2,8 @@ import EaselModel.Core.Proto
 import EaselModel.Alphabet.Model
 import EaselModel.Alphabet.SqModel
 import EaselModel.Alphabet.GuessModel
+import EaselModel.Alphabet.TypeModel
+import EaselModel.Alphabet.Sq2Model
 /-! Line-protocol driver for the C08 model (same ops as harness/h_alphabet.c). -/
 open EaselModel EaselModel.Proto EaselModel.Alphabet
 
@@ -75,11 +77,37 @@ def doDigitize (s : S) (a : Alphabet) (txt : List Nat) : S × String :=
   let (st, d) := a.digitize (cstr txt)
   ({ s with d := some d, L := d.length - 2 }, outDsq s!"st={st.name}" (some d))
 
+/-- answer of the two GuessAlphabet models (binary64 tests / integer tests); a disagreement inside the range where the
+    integer form is claimed exact is reported (and then differs from the implementation's line) -/
+def guessLine (ct : List Int) (f : Bool × Nat) (z : Nat) : String :=
+  let inrange := ct.all fun v => decide (-1099511627776 < v) && decide (v < 1099511627776)
+  if inrange && z != f.2 then s!"model-split float={f.2} int={z}"
+  else s!"{if f.1 then "ok" else "enoalphabet"} type={f.2}"
+
+/-- the alphabet-independent ops (type codes) -/
+def stepNoAbc (ws : List String) (op : String) : Option String :=
+  if op == "enctype" then
+    let txt := match argHex? ws "hex" with | some b => b.map (·.toNat) | none => []
+    some s!"ok {AbcType.encodeType (cstr txt)}"
+  else if op == "enctypemem" then
+    let txt := match argHex? ws "hex" with | some b => b.map (·.toNat) | none => []
+    some s!"ok {AbcType.encodeTypeMem txt}"
+  else if op == "dectype" then
+    match AbcType.decodeType ((argInt? ws "t").getD 0) with
+    | some n => some s!"ok {hx n}"
+    | none => some "exception einval null"
+  else if op == "valtype" then
+    some (if AbcType.validateType ((argInt? ws "t").getD 0) then "ok" else "fail")
+  else none
+
 def step (s : S) (line : String) : S × String :=
   let ws := words line
   match ws with
   | [] => (s, "bad-op")
   | op :: _ =>
+  match stepNoAbc ws op with
+  | some r => (s, r)
+  | none =>
   if op == "abc" then
     let r := match arg? ws "type" with
       | some "dna" => some Alphabet.createDna | some "rna" => some Alphabet.createRna
@@ -246,8 +274,33 @@ def step (s : S) (line : String) : S × String :=
     | some r => (s, "ok " ++ ",".intercalate (r.map toString)) | none => (s, "fault")
   else if op == "guess" then
     let ct := parseIList ((arg? ws "ct").getD "-")
-    let (ok, t) := Guess.guessAlphabet ct
-    (s, s!"{if ok then "ok" else "enoalphabet"} type={t}")
+    (s, guessLine ct (Guess.guessAlphabet ct) (Guess.guessZ ct))
+  else if op == "sqxadd" then
+    let codes := argBytes ws "codes"
+    match (Sq.addAll Sq.xAddResidue Sq.createDigital codes).bind (fun g => Sq.xAddResidue g SENTINEL) with
+    | none => (s, "fault")
+    | some g =>
+      let ck := Sq.checksumDigital ((g.buf.drop 1).take g.n)
+      let pre := s!"ok n={g.n} salloc={g.salloc} ck={hex32 ck} dsq={hx g.buf}"
+      let start := (argInt? ws "start").getD 1
+      let L := (argInt? ws "L").getD g.n
+      let f0 : List Float32 := List.replicate a.K 0.0
+      match Sq.countResidues a g.buf g.n start L f0 with
+      | some none => (s, "fault")
+      | r =>
+        let (crs, f) := match r with | some (some f) => ("ok", f) | _ => ("erange", f0)
+        match a.convertDegen2X g.buf with
+        | none => (s, "fault")
+        | some d2 => (s, pre ++ s!" cr={crs} f={",".intercalate (f.map fnum)} d2x=ok dsq2={hx d2}")
+  else if op == "sqcadd" then
+    let txt := argBytes ws "hex"
+    match (Sq.addAll Sq.cAddResidue Sq.createText txt).bind (fun g => Sq.cAddResidue g 0) with
+    | none => (s, "fault")
+    | some g => (s, s!"ok n={g.n} salloc={g.salloc} ck={hex32 (Sq.checksumText (g.buf.take g.n))} seq={hx g.buf} d2x=exception-einval")
+  else if op == "sqguess" then
+    let txt := argBytes ws "hex"
+    if cstr txt ≠ txt then (s, "bad-op") else
+    (s, guessLine (Guess.sqCount txt (List.replicate 26 0) 0) (Guess.sqGuess txt) (Guess.sqGuessZ txt))
   else if op == "validateseq" then
     let txt := argBytes ws "hex"
     let (st, msg) := Alphabet.validateSeqMsg (if (argNat? ws "noabc").getD 0 ≠ 0 then none else some a) txt
